@@ -227,8 +227,28 @@ def check_slots(ctx):
         pos = [src.find('builder.%s()' % o) for o in order]
         if all(p >= 0 for p in pos) and pos == sorted(pos):
             ctx.holds(rule, mp, 'builder steps: compile slots -> collect hooks -> install descriptors -> create class -> generate code', 'slots and hooks exist before the class and its generated code', mp.node.lineno, clause='b')
+        elif all(p >= 0 for p in pos):
+            ctx.violation(rule, mp, 'MetaPacket.__new__ builder order', 'the builder steps are out of order (%s)' % pos, mp.node.lineno, clause='b', witness=True)
         else:
-            ctx.violation(rule, mp, 'MetaPacket.__new__ builder order', 'the builder steps are out of order (%s)' % pos, mp.node.lineno, clause='b')
+            # the steps as an ordered table of method names (strings / methodcaller('name')) run by a loop
+            tab_order = None
+            for holder in (repo.cls('PacketClassBuilder').node, repo.cls('MetaPacket').node, repo.modules[pb.module]['tree']):
+                for st_ in [x for b_ in holder.body if isinstance(b_, ast.Assign) for x in ast.walk(b_.value) if isinstance(x, (ast.Tuple, ast.List))]:
+                    if True:
+                        names_ = []
+                        for el in st_.elts:
+                            if isinstance(el, ast.Constant) and isinstance(el.value, str):
+                                names_.append(el.value)
+                            elif isinstance(el, ast.Call) and (call_name(el) or '').split('.')[-1] == 'methodcaller' and el.args and isinstance(el.args[0], ast.Constant):
+                                names_.append(el.args[0].value)
+                        if all(o in names_ for o in order):
+                            tab_order = [names_.index(o) for o in order]
+            if tab_order is not None and tab_order == sorted(tab_order):
+                ctx.holds(rule, mp, 'builder steps (table): compile slots -> collect hooks -> install descriptors -> create class -> generate code', 'slots and hooks exist before the class and its generated code', mp.node.lineno, clause='b')
+            elif tab_order is not None:
+                ctx.violation(rule, mp, 'builder step table order %s' % tab_order, 'the builder steps are out of order', mp.node.lineno, clause='b', witness=True)
+            else:
+                ctx.undecided(rule, mp, 'MetaPacket.__new__ builder order', 'cannot see in which order the builder steps run', mp.node.lineno, clause='b')
     # Field._compile_impl and _describe_yourself
     fld = repo.cls('Field')
     ci_ = fld.methods.get('_compile_impl')
@@ -488,7 +508,12 @@ def check_constructor(ctx):
             continue            # its statements live in (and are attributed to) its callers
         for n in ast.walk(f.node):
             if isinstance(n, ast.Call) and isinstance(n.func, ast.Name) and n.func.id == 'setattr' and len(n.args) == 3 and 'iam_enabled_attr_name' in canon(n.args[1]):
-                writers.append(f.qual)
+                # __set__ / __delete__ of Auto or of a base class Auto inherits them from
+                if f.node.name in ('__set__', '__delete__') and f.cls is not None and repo.has_cls('Auto') and f.cls in repo.mro(repo.cls('Auto')) \
+                        and repo.method(repo.cls('Auto'), f.node.name) is f:
+                    writers.append('Auto.' + f.node.name)
+                else:
+                    writers.append(f.qual)
     extra = sorted(set(writers) - {'Auto.__set__', 'Auto.__delete__'})
     if extra:
         ctx.violation('R13-flag-writers', ('bisturi/descriptor.py', 'Auto'), 'flag writers: %s' % sorted(set(writers)), 'the enabled flag is written outside __set__ / __delete__: %s' % extra, 0, clause='e')
